@@ -16,11 +16,11 @@ var c12AllKeys = []string{"a", "b", "c", "d", "x y", "1a", "end"}
 func isIdentKey(k string) bool { return k != "x y" && k != "1a" }
 
 type mapHist struct {
-	r     *rand.Rand
-	stmts []gen.Stmt
-	n     int
-	val   float64
-	c     *core.Ctx
+	r           *rand.Rand
+	stmts       []gen.Stmt
+	n           int
+	val         float64
+	c           *core.Ctx
 	walkDefined bool
 }
 
@@ -97,6 +97,11 @@ func (h *mapHist) rangeOp(name string, inner int) gen.Stmt {
 			}})
 		}
 		body = append(body, gen.CallStmt{C: call("walk", gen.TNone, h.m(name), nl(float64(h.r.Intn(2))))})
+	case 13: // delete not-yet-visited keys (whichever is last in insertion order among them), then insert
+		body = append(body, h.del(name, "c"), h.del(name, "b"), h.del(name, "end"),
+			gen.Assign{Target: gen.Index{X: h.m(name), I: gen.Binary{Op: "+", L: vr(kv, tStr), R: sl("z"), T: tStr}, T: tNum}, Val: h.nextVal()})
+	case 14: // insert, delete the inserted key again, insert another one
+		body = append(body, h.set(name, "end"), h.del(name, "end"), h.set(name, "x y"))
 	case 7: // delete a later key
 		body = append(body, h.del(name, "c"))
 	case 8: // drain the map in the first round
@@ -146,7 +151,7 @@ func (h *mapHist) op(name string, o int) []gen.Stmt {
 		return []gen.Stmt{h.rangeOp(name, 5)}
 	case o == 11:
 		h.c.Cover("op", "range-nested")
-		return []gen.Stmt{h.rangeOp(name, 10+h.r.Intn(3))}
+		return []gen.Stmt{h.rangeOp(name, 10+h.r.Intn(5))}
 	case o == 10:
 		h.c.Cover("op", "range-novar-del-later")
 		return []gen.Stmt{h.rangeOp(name, 7+h.r.Intn(2))}
@@ -167,9 +172,9 @@ func c12Count(maxLen int) int {
 
 func init() {
 	core.Register(&core.Check{
-		ID:    "C12",
-		Level: "exploration",
-		Rule: "map histories as Evy programs whose printed observations (map, len, has of every key, visited keys, lookups) are compared with an insertion-ordered dictionary model: all histories up to length 3 (quick) / 4 (thorough) over a 13-operation alphabet on 3 keys (set, delete, five kinds of mutation while ranging over the same map with and without loop variable, nested map loops — another map, the same map, through a recursive function —, guarded lookup), plus random histories up to length 14 with non-identifier keys, aliases (second name, map inside an array, map inside any), missing-key lookups and ==/!= between maps built in different orders with deep values; distinct = distinct canonical program texts",
+		ID:          "C12",
+		Level:       "exploration",
+		Rule:        "map histories as Evy programs whose printed observations (map, len, has of every key, visited keys, lookups) are compared with an insertion-ordered dictionary model: all histories up to length 3 (quick) / 4 (thorough) over a 13-operation alphabet on 3 keys (set, delete, five kinds of mutation while ranging over the same map with and without loop variable, nested map loops — another map, the same map, through a recursive function —, guarded lookup), plus random histories up to length 14 with non-identifier keys, aliases (second name, map inside an array, map inside any), missing-key lookups and ==/!= between maps built in different orders with deep values; distinct = distinct canonical program texts",
 		Assumptions: []string{"sequential model: ref.Map (ordered keys + dictionary) in harness/ref; the history is a single program so the order of operations is total"},
 		NumCases: func(tier string) int {
 			if tier == "thorough" {
@@ -256,7 +261,7 @@ func c12Run(c *core.Ctx, i int) {
 			h.stmts = append(h.stmts, h.get(name, key, true))
 			c.Cover("op", "get-guarded")
 		case 6, 7:
-			inner := r.Intn(13)
+			inner := r.Intn(15)
 			h.stmts = append(h.stmts, h.rangeOp(name, inner))
 			c.Cover("op", fmt.Sprintf("range-inner-%d", inner))
 		case 8:
